@@ -240,7 +240,7 @@ impl Property for C01 {
     fn fixed_parts(&self, ctx: &mut Ctx) -> Vec<Violation> {
         let mut out = vec![];
         if ctx.index == 0 {
-            if let Err(e) = crate::tools::calib_check(&format!("{}/corpus/calibration", VERIF)) {
+            if let Err(e) = crate::tools::calib_check(&format!("{}/corpus/calibration", verif_root())) {
                 out.push(Violation::new("harness-error", format!("reference semantics failed its calibration: {}", e), json!({})));
                 return out;
             }
